@@ -244,7 +244,13 @@ def remove(rc):
                                                               "[_v for _u, _v in self.edges() if _u == _n]", "[_v for _u, _v in self.edges if _u == _n]",
                                                               "[_v for _u, _v in self.edges() if _n == _u]", "self[_n]", "list(self[_n])")):
                 child_loop = True
-        rc.ob(f"remove_node: {norm(c)} in child loop: {child_loop}, in place: {inplace}")
+        # the children must be cleaned up whether or not the removed node itself has a CPD
+        own = [t for t, pol in s.conds if any(isinstance(x, ast.Call) and call_name(x) == "get_cpds" and
+                                                 (dotted(kwarg(x, "node")) == node or (x.args and dotted(x.args[0]) == node)) for x in ast.walk(t))]
+        rc.ob(f"remove_node: {norm(c)} in child loop: {child_loop}, in place: {inplace}, conditioned on the removed node's own CPD: {bool(own)}")
+        if own:
+            rc.fail(f, c, "the children's CPDs are marginalised only if the removed node itself has a CPD: after remove_cpds(node) (or in a partially parameterised model) the children "
+                    "keep a parent that no longer exists and check_model raises", construct="marginalise children conditioned on own cpd")
         if targets_node and inplace and child_loop:
             ok_m = True
     if not ok_m:
